@@ -358,13 +358,18 @@ def farshift(ch: Choices, model: dict, probes=None) -> dict:
     commutes with a translation (relation tuples and the counted value of exactly_eq moved along; other constraints are
     dropped from the model, at least one is kept): the propagators then work on large values.  The compiled engine
     computes such sums in 64 bits; numpy 32-bit scalars (JIT disabled) wrap."""
-    if model.get("flavour") in ("circuit", "bigcircuit") or not ch.chance(1, 6, "far"):
+    padded = bool(model.get("padded"))
+    if model.get("flavour") in ("circuit", "bigcircuit") or not ch.chance(1, 2 if padded else 6, "far"):
         return model
     K = FAR[ch.choose(len(FAR), "far.k")]
+    if ch.chance(1, 2 if padded else 5, "far.moderate") and nonneg_model(model):
+        # moderate magnitude: the model stays one that the cost heuristics accept, but their tables get hundreds of
+        # columns - with hundreds of (padding) rows, row * width no longer fits 16 bits
+        K = [250, 1000, 300][ch.choose(3, "far.moderate.k")]
     n = len(model["shr"])
     out = dict(model)
     inv = [p for p in model["props"] if p[1] in TRANSLATION_INVARIANT]
-    if inv and ch.chance(1, 3, "far.values"):
+    if inv and K > 2000 and ch.chance(1, 3, "far.values"):
         out["shr"] = [[lo + K, hi + K] for lo, hi in model["shr"]]
         props = []
         for vs, alg, prm in inv:
@@ -384,6 +389,36 @@ def farshift(ch: Choices, model: dict, probes=None) -> dict:
             probes["far_shared_domain_models"] += 1
     out["far"] = True
     return out
+
+
+def wide_table_model(ch: Choices) -> dict:
+    """y = table[x] with table values up to +-1.2 x 2^30 of BOTH signs (each fits 32 bits; a difference of two of them
+    does not), y's domain the hull of the table - wider than 2^31 values - and possibly a second index variable tied to
+    x.  The natural objective of an optimisation; the reference derives y from the table (refmodel.iter_box_model)."""
+    k = 2 + ch.choose(4, "wt.k")
+    big = [(1 << 30) + (1 << 28), -(1 << 30) - (1 << 28), 1 << 30, -(1 << 30), (1 << 31) - 5, -(1 << 31) + 5]
+    table = []
+    for _ in range(k):
+        if ch.chance(1, 2, "wt.big"):
+            table.append(big[ch.choose(len(big), "wt.bigv")] + ch.choose(3, "wt.jit") - 1)
+        else:
+            table.append(ch.choose(15, "wt.small") - 7)
+    if max(table) - min(table) < (1 << 31):
+        table[0], table[-1] = big[0] + ch.choose(3, "wt.jit0"), big[1] - ch.choose(3, "wt.jit1")
+    lo = 0 - ch.choose(2, "wt.xlo")  # the index may overhang the table
+    hi = k - 1 + ch.choose(2, "wt.xhi")
+    model = {"shr": [[lo, hi], [min(table), max(table)]], "idx": [0, 1], "off": [0, 0],
+             "props": [[[0, 1], "element_iv", list(table)]], "flavour": "wide_table"}
+    if ch.chance(1, 2, "wt.extra"):
+        model["shr"].append([0, 2])
+        model["idx"].append(2)
+        model["off"].append(0)
+        model["props"].append([[0, 2], ["affine_leq", "affine_geq"][ch.choose(2, "wt.extra.t")], [1, -1, ch.choose(3, "wt.extra.c") - 1]])
+    if ch.chance(1, 3, "wt.swap"):
+        # the wide variable listed first
+        model["shr"][0], model["shr"][1] = model["shr"][1], model["shr"][0]
+        model["idx"][0], model["idx"][1] = 1, 0
+    return model
 
 
 def R_space(shr) -> int:
@@ -506,8 +541,27 @@ def nonneg_model(model: dict) -> bool:
     return all(lo >= 0 and hi < (1 << 16) for lo, hi in model["shr"])
 
 
-def cost_table(ch: Choices, model: dict, label: str) -> List[List[int]]:
+def expand_table(t):
+    """A cost table given by rule: {"rule": [rows, width, a, b, zero]} -> cost(d, v) = 1 + (a*d + b*v) % 3, with cost
+    0 (a value the cost heuristics skip) at column (d + zero) % width of each row when zero >= 0."""
+    if not isinstance(t, dict):
+        return t
+    rows, width, a, b, zero = t["rule"]
+    out = []
+    for d in range(rows):
+        r = [1 + (a * d + b * v) % 3 for v in range(width)]
+        if zero >= 0:
+            r[(d + zero) % width] = 0
+        out.append(r)
+    return out
+
+
+def cost_table(ch: Choices, model: dict, label: str):
     width = max(hi for lo, hi in model["shr"]) + 1
+    if width * len(model["shr"]) > 4000:
+        # a large table is described by a rule (one choice, not one per cell; a replay file stays small)
+        return {"rule": [len(model["shr"]), width, 1 + ch.choose(5, label + ".a"), 1 + ch.choose(7, label + ".b"),
+                         ch.choose(width, label + ".zero.at") if ch.chance(1, 3, label + ".zero") else -1]}
     rows = []
     for _ in model["shr"]:
         rows.append([1 + ch.choose(3, label) for _ in range(width)])  # strictly positive, ties frequent
@@ -525,6 +579,8 @@ def gen_config(ch: Choices, model: dict, opts: Optional[dict] = None) -> dict:
     cons = ch.choose(2, "cfg.cons") if opts.get("shaving", True) else 0
     var_h = ch.choose(4 if nn else 3, "cfg.var")
     dom_h = ch.choose(5 if nn else 4, "cfg.dom")
+    if nn and len(model["shr"]) > 200 and ch.chance(1, 2, "cfg.cost.tall"):
+        var_h, dom_h = [(3, 4), (0, 4), (3, 0), (1, 4)][ch.choose(4, "cfg.cost.tall.k")]  # tall tables get used
     cfg = {"cons": cons, "var_h": var_h, "dom_h": dom_h, "var_params": [[]], "dom_params": [[]]}
     if var_h == 3:
         cfg["var_params"] = cost_table(ch, model, "cfg.varcost")
